@@ -10,6 +10,18 @@ CLAIMED = {
          'Bounded symbolic execution of the real setTask/moveTask/removeTask/onTick/scanAndRunTasks code: wheel size, tickedPos, delays (whole intervals and sub-interval remainders) and operation scripts are solver-enumerated/symbolic; every tick is checked against a ghost due-tick oracle. Holds for all values inside the stated bounds; nothing is claimed outside them.',
          'go/ssa translation, the gosym interpreter, z3; wheel driven without its run() goroutine (run() serialises exactly these calls); SafeMap/list executed from source; sync.RWMutex modelled natively.',
          'SSA symbolic execution + SMT (z3), stateless DFS over decision vectors'),
+ 'C01': ('DESIGN.md §4 C01',
+         'Bounded symbolic execution of the real googleBreaker.accept (admission law, forced probe, sustained failure: window summary, clock and random draw symbolic; floats in the E2 real relaxation), history() over symbolic bucket contents, and exact accounting of all 10 Do*/Allow* entry points of the real NewBreaker() object for every request outcome/fallback/context combination.',
+         'go/ssa translation, gosym, z3; E2 float encoding (monotone rounding with anchors: an over-approximation of IEEE-754, so unsat is a proof and models must reproduce concretely); logging/metrics stubs; 2-goroutine schedules of Do are in the thorough tier only.',
+         'SSA symbolic execution + SMT (z3), stateless DFS over decision vectors'),
+ 'C14': ('DESIGN.md §4 C14',
+         'Symbolic execution of the real transactOnConn/transact/TransactCtx with every fault flag a solver variable (begin, k-th statement, body error drawn from the sentinel errors sqlx treats specially, body panic, commit, rollback, connection provider); exactly-once Commit/Rollback, commit-iff-success and error reporting asserted on every path.',
+         'go/ssa translation, gosym, z3; harness supplies the beginnable, a recording trans and a pass-through breaker; tracing spans stubbed out; bodies of at most 3 statements.',
+         'SSA symbolic execution + SMT (z3), stateless DFS over decision vectors'),
+ 'C16': ('DESIGN.md §4 C16, Appendix C',
+         'Inductive one-step checks from an arbitrary state satisfying the representation invariant for Ring, Queue and SafeMap (deletion counters symbolic around the 10000 migration threshold), bounded symbolic histories for RollingWindow (symbolic clock, interval-aligned oracle), Set, and the in-memory Cache/keyLru with the real TimingWheel goroutine under the engine scheduler (sleep-set reduced interleavings).',
+         'go/ssa translation, gosym, z3; invariants as written in DESIGN Appendix C; cache expiry (timing wheel ticks) is C12; jitter stubbed in the cache harness.',
+         'SSA symbolic execution + SMT (z3), stateless DFS over decision vectors + scheduler with sleep sets'),
 }
 
 NA = {
